@@ -213,12 +213,17 @@ fn probe<T: Subject>(below: usize, d: usize, op: OverOp, fill: bool, other: Tid,
         }
         OverOp::Extend => {
             let mut v: T = build_canon(&val(start));
-            let z: Z = tid_match!(T::TID, U => { let mut u = U::from_z(v.clone().wrap()).unwrap(); u.extend((0..grow).map(|_| b)); u.wrap() });
+            let z: Z = tid_match!(T::TID, U => { let mut u = U::from_z(v.clone().wrap()).unwrap(); if at % 2 == 0 { u.extend((0..grow).map(|_| b)) } else { u.extend((0..grow).filter(|_| true).map(|_| b)) }; u.wrap() });
             v = T::from_z(z).unwrap();
             lc(&v)
         }
         OverOp::Collect => {
-            let z: Z = tid_match!(T::TID, U => (0..target).map(|_| b).collect::<U>().wrap());
+            // the iterator's size hint is exact, a loose lower bound (filter), or absent (from_fn)
+            let z: Z = tid_match!(T::TID, U => match at % 3 {
+                0 => (0..target).map(|_| b).collect::<U>().wrap(),
+                1 => (0..target).filter(|_| true).map(|_| b).collect::<U>().wrap(),
+                _ => { let mut k = 0usize; std::iter::from_fn(move || { k += 1; if k <= target { Some(b) } else { None } }).collect::<U>().wrap() }
+            });
             Ended::Returned(z.len(), z.capacity())
         }
     });
@@ -234,13 +239,13 @@ impl Property for C19 {
         "C19"
     }
     fn rule(&self) -> String {
-        "Cases: for each of the 18 fixed types, a valid vector of length C-below (below in 0..=3) or an empty one and one request exceeding the capacity by d in 1..70 bits: zeros/ones/repeat(C+d) must panic; from_bytes/from_binary/from_hex/read/TryFrom<integer | slice | vector of every other type> must return Err; push, resize, sign_extend, append/prepend/insert (operand of any zoo type), extend and collect must panic. Returning normally is the violation (reported with the resulting len/capacity); so is a panic that leaves the vector it was applied to with len > capacity (the vector is inspected after the caught panic). zeros/resize/read with lengths near usize::MAX are included. Both build profiles run every case. In the profile with debug assertions only: get/set(i>=len), copy_range with start or end > len and split_off(i>len) must panic, on all 20 types. Enumerated: the complete product (type x below x d x operation x fill bit) with the operand type rotating; random adds operand types/positions. Non-trivial: every over-capacity request from a valid state is; distinct by hash of the case (type, operation, start length, d, operand type).".into()
+        "Cases: for each of the 18 fixed types, a valid vector of length C-below (below in 0..=3) or an empty one and one request exceeding the capacity by d in 1..70 bits: zeros/ones/repeat(C+d) must panic; from_bytes/from_binary/from_hex/read/TryFrom<integer | slice | vector of every other type> must return Err; push, resize, sign_extend, append/prepend/insert (operand of any zoo type), extend and collect (from iterators whose size hint is exact, a loose lower bound, or absent) must panic. Returning normally is the violation (reported with the resulting len/capacity); so is a panic that leaves the vector it was applied to with len > capacity (the vector is inspected after the caught panic). zeros/resize/read with lengths near usize::MAX are included. Both build profiles run every case. In the profile with debug assertions only: get/set(i>=len), copy_range with start or end > len and split_off(i>len) must panic, on all 20 types. Enumerated: the complete product (type x below x d x operation x fill bit) with the operand type rotating; random adds operand types/positions. Non-trivial: every over-capacity request from a valid state is; distinct by hash of the case (type, operation, start length, d, operand type).".into()
     }
     fn random_cases(&self, tier: Tier) -> u64 {
         tier.pick(150000, 4800000)
     }
     fn strategy(&self, tier: Tier) -> BoxedStrategy<C19Case> {
-        let over = ((0usize..21).prop_map(|i| FIXED_TIDS[i]), 0usize..5, 1usize..70, 0usize..21, any::<bool>(), 0..NT, any::<u16>()).prop_map(|(ty, below, d, o, fill, other, at)| C19Case::Over { ty, below, d, op: OVER_OPS[o], fill, other, at });
+        let over = ((0usize..27).prop_map(|i| FIXED_TIDS[i]), 0usize..5, 1usize..70, 0usize..21, any::<bool>(), 0..NT, any::<u16>()).prop_map(|(ty, below, d, o, fill, other, at)| C19Case::Over { ty, below, d, op: OVER_OPS[o], fill, other, at });
         let bad = (arb_operand(tier), 0usize..5, prop_oneof![Just(0usize), Just(1), 0usize..200]).prop_map(|(a, w, beyond)| C19Case::BadIndex { a, which: [BadIdx::Get, BadIdx::Set, BadIdx::CopyRangeEnd, BadIdx::CopyRangeStart, BadIdx::SplitOff][w], beyond });
         prop_oneof![5 => over, 1 => bad].boxed()
     }
